@@ -11,6 +11,7 @@
 -/
 import CogentModel.Model.View
 import CogentModel.Model.AnnotDb
+import CogentModel.Model.FeatureView
 namespace CogentModel.FeatureView
 open CogentModel.View
 
@@ -21,5 +22,21 @@ def addFeatureRecord (v : View) (spans : List (Int × Int)) (minus : Bool) : Exc
   | .ok off =>
     let rel := if v.step < 0 then AnnotDb.sortSpans (spans.map fun sp => (len v - sp.2, len v - sp.1)) else spans
     .ok (rel.map (fun sp => (sp.1 + off, sp.2 + off)), if v.step < 0 then !minus else minus)
+
+/-- the plus-strand, segment-relative spans `add_feature` hands to `make_feature` (`rel_spans`) -/
+def addRelSpans (v : View) (spans : List (Int × Int)) : List (Int × Int) :=
+  if v.step < 0 then AnnotDb.sortSpans (spans.map fun sp => (len v - sp.2, len v - sp.1)) else spans
+
+/-- the whole of `Sequence.add_feature`: the db record AND the Feature it returns
+(`self.make_feature(feature_data)` with `rel_spans` and the db strand); `annotation_offset` is evaluated (and may
+raise) before the db is written and before `make_feature` runs -/
+def addFeature (v : View) (spans : List (Int × Int)) (minus : Bool) :
+    Except FErr ((List (Int × Int) × Bool) × Feat) :=
+  match liftErr (addFeatureRecord v spans minus) with
+  | .error e => .error e
+  | .ok rec =>
+    match makeFeature (len v) (decide (v.step < 0)) rec.2 (addRelSpans v spans) with
+    | .error e => .error e
+    | .ok f => .ok (rec, f)
 
 end CogentModel.FeatureView
